@@ -34,8 +34,12 @@ pub fn build_local_stat_symbol(
         let decl = builder.get_decl(&decl_id)?;
         let typ = builder.get_type(decl_id.into());
         let desc = builder.get_symbol_kind_and_detail(Some(&typ));
+        let value_expr = local_values.get(index).cloned();
+        // the symbols of the value expression become children of this one: its range has to enclose them
         let range = if simple_local {
             local_stat.get_range()
+        } else if let Some(expr) = &value_expr {
+            decl.get_range().cover(expr.get_range())
         } else {
             decl.get_range()
         };
@@ -43,7 +47,6 @@ pub fn build_local_stat_symbol(
         let symbol = LuaSymbol::new(decl.get_name().to_string(), desc.1, desc.0, range);
         let symbol_id =
             builder.add_node_symbol(local_name.syntax().clone(), symbol, Some(parent_id));
-        let value_expr = local_values.get(index).cloned();
         bindings.push(SymbolBinding {
             symbol_id,
             value_expr,
@@ -69,8 +72,12 @@ pub fn build_assign_stat_symbol(
             Some(decl) => decl,
             None => continue,
         };
+        let value_expr = exprs.get(index).cloned();
+        // the symbols of the value expression become children of this one: its range has to enclose them
         let range = if simple_var {
             assign_stat.get_range()
+        } else if let Some(expr) = &value_expr {
+            decl.get_range().cover(expr.get_range())
         } else {
             decl.get_range()
         };
@@ -79,7 +86,6 @@ pub fn build_assign_stat_symbol(
         let symbol = LuaSymbol::new(decl.get_name().to_string(), desc.1, desc.0, range);
 
         let symbol_id = builder.add_node_symbol(var.syntax().clone(), symbol, Some(parent_id));
-        let value_expr = exprs.get(index).cloned();
         bindings.push(SymbolBinding {
             symbol_id,
             value_expr,
